@@ -41,6 +41,10 @@ def c07(ctx):
     m_guest.run(ctx)
     m_bitmap.traces(ctx)
     m_xen.xgrant(ctx, zero=True)
+    # the same drivers against a release build (no overflow checks, no debug assertions): still no panic / fault / hang
+    m_volatile.traces(ctx, release=True)
+    m_guest.traces(ctx, release=True)
+    ctx.cov["release_profile_runs"] = 2
 
 
 PROPS = {
